@@ -147,10 +147,14 @@ where
     ```
     */
     pub fn new(target: D, proposal: Q, initial_states: Vec<Vec<S>>) -> Self {
-        let chains = initial_states
-            .into_iter()
-            .map(|s| MHMarkovChain::new(target.clone(), proposal.clone(), s))
-            .collect();
+        // Every chain gets its own proposal stream: a clone of `proposal` would replay the very
+        // same noise in all chains.
+        let base_seed = rand::rng().random::<u64>();
+        let mut chains = Vec::with_capacity(initial_states.len());
+        for (i, s) in initial_states.into_iter().enumerate() {
+            let chain_proposal = proposal.clone().set_seed(base_seed.wrapping_add(i as u64));
+            chains.push(MHMarkovChain::new(target.clone(), chain_proposal, s));
+        }
         Self {
             target,
             proposal,
@@ -185,9 +189,14 @@ where
     ```
     */
     pub fn seed(mut self, seed: u64) -> Self {
+        let n_chains = self.chains.len() as u64;
         for (i, chain) in self.chains.iter_mut().enumerate() {
             let chain_seed = seed.wrapping_add(i as u64).wrapping_add(1);
-            chain.rng = SmallRng::seed_from_u64(chain_seed)
+            chain.rng = SmallRng::seed_from_u64(chain_seed);
+            // The proposal streams are re-seeded too (reproducibility), from a range of seeds
+            // disjoint from the acceptance seeds so that no two generators coincide.
+            let proposal_seed = chain_seed.wrapping_add(n_chains);
+            chain.proposal = chain.proposal.clone().set_seed(proposal_seed);
         }
         self
     }
